@@ -229,6 +229,23 @@ Section Knn.
   Definition knn_pick (g : knn) (k : nat) (densx : W) (ds : list W) (ns : list nat) : option nat :=
     snd (fold_left (pick_step g densx ds ns) (seq 0 k) (bot, None)).
 
+  (* one query of KNNSupervisedOPF.predict / UnsupervisedOPF.predict: scan over ALL training samples,
+     query density [densx_of ds ns] from the k selected distances/neighbours (arithmetic: Model/Pdf.v),
+     arg-max.  The code allocates [neighbours_idx] once per predict call, so the batch version threads it. *)
+  Definition knn_predict_one (g : knn) (k n : nat) (densx_of : list W -> list nat -> W) (dist : nat -> W) : option nat :=
+    let '(ds, ns) := knn_scan k n dist None (repeat 0 (S k)) in
+    knn_pick g k (densx_of ds ns) ds ns.
+
+  Definition knn_predict_step (g : knn) (k n : nat) (densx_of : list W -> list nat -> W)
+             (st : list nat * list (option nat)) (dist : nat -> W) : list nat * list (option nat) :=
+    let '(ns0, out) := st in
+    let '(ds, ns) := knn_scan k n dist None ns0 in
+    (ns, out ++ [knn_pick g k (densx_of ds ns) ds ns]).
+
+  Definition knn_predict_batch (g : knn) (k n : nat) (densx_of : list W -> list nat -> W)
+             (qs : list (nat -> W)) : list (option nat) :=
+    snd (fold_left (knn_predict_step g k n densx_of) qs (repeat 0 (S k), [])).
+
   (* ---------------- k selection ---------------- *)
 
   (* KNNSupervisedOPF._learn: max_acc = 0.0; best_k = 1; for k: if acc > max_acc: max_acc = acc; best_k = k *)
